@@ -27,6 +27,7 @@ type PropDef struct {
 	// Runs per tier (cases, not counting sweep expansions)
 	QuickCases, ThoroughCases int
 	Race                      bool
+	Stalls                    bool // the property's oracles tolerate injected stalls (a task descheduled for a while at a scheduling point)
 	Gen   func(r *Rnd, t Tier) *Case
 	Check func(c *checkCtx)
 	Valid func(sc *Scenario) bool // premise of the property; shrinking stays inside it
